@@ -137,8 +137,9 @@ func opGoc(c *core.Ctx, shard tsdb.Shard, k calcT, ts []int64, sched []int) {
 	sc := &gocSched{c: c, shard: shard, byGoid: map[int64]*gocThread{}}
 	restore := tsdb.VerifC13SetOpenHooks(
 		func(s tsdb.Shard, _ string) { sc.point("newSegmentFunc.before", tsdb.VerifC13SegmentsLocked(s)) },
-		func(s tsdb.Shard, _ string, _ tsdb.Segment) {
-			if sc.self() != nil {
+		func(s tsdb.Shard, name string, _ tsdb.Segment) {
+			// segments of the writable interval only (rollup target segments have other name layouts)
+			if th := sc.self(); th != nil && name == k.calc.GetSegment(th.t) {
 				sc.mu.Lock()
 				sc.opened++
 				sc.mu.Unlock()
@@ -215,7 +216,14 @@ func opGoc(c *core.Ctx, shard tsdb.Shard, k calcT, ts []int64, sched []int) {
 			}
 			for j := i + 1; j < len(ths); j++ {
 				b := ths[j]
-				if b.fam == nil || k.calc.CalcFamilyTime(a.t) != k.calc.CalcFamilyTime(b.t) {
+				if b.fam == nil {
+					continue
+				}
+				if k.calc.CalcFamilyTime(a.t) != k.calc.CalcFamilyTime(b.t) {
+					if a.fam == b.fam {
+						c.Fail("shard-family-object-shared/"+k.name, fmt.Sprintf(
+							"%s: writers %d (t=%d) and %d (t=%d) of different families hold the same DataFamily object", op, i, a.t, j, b.t))
+					}
 					continue
 				}
 				if a.fam != b.fam {
@@ -238,7 +246,7 @@ func opGoc(c *core.Ctx, shard tsdb.Shard, k calcT, ts []int64, sched []int) {
 }
 
 // gocEngine creates a fresh engine + shard of calculator k for the scenarios of one case.
-func gocEngine(c *core.Ctx, k calcT, iv int64, f func(shard tsdb.Shard)) {
+func gocEngine(c *core.Ctx, k calcT, iv int64, f func(shard tsdb.Shard), rollups ...int64) {
 	dir, err := os.MkdirTemp("", "lvh-c13-*")
 	if err != nil {
 		c.Note("mkdtemp failed: " + err.Error())
@@ -255,6 +263,9 @@ func gocEngine(c *core.Ctx, k calcT, iv int64, f func(shard tsdb.Shard)) {
 	}
 	defer engine.Close()
 	opt := &option.DatabaseOption{Intervals: option.Intervals{{Interval: timeutil.Interval(iv), Retention: timeutil.Interval(400 * 365 * day)}}}
+	for _, ru := range rollups {
+		opt.Intervals = append(opt.Intervals, option.Interval{Interval: timeutil.Interval(ru), Retention: timeutil.Interval(400 * 365 * day)})
+	}
 	if err := engine.CreateShards("db", opt, models.ShardID(1)); err != nil {
 		c.Note("create shard: " + err.Error())
 		return
@@ -292,6 +303,20 @@ func gocCase(c *core.Ctx, r *rand.Rand) {
 	iv := k.intervals[r.Intn(len(k.intervals))]
 	c.NonTrivial()
 	c.Branch("goc/" + k.name)
+	// a third of the shards have rollup target intervals (coarser types): GetOrCrateDataFamily then
+	// also get-or-creates the rollup target segments between the two levels
+	var rollups []int64
+	if r.Intn(3) == 0 {
+		switch k.name {
+		case "day":
+			rollups = [][]int64{{5 * min}, {hour}, {10 * min, 2 * hour}}[r.Intn(3)]
+		case "month":
+			rollups = []int64{hour}
+		}
+		if len(rollups) > 0 {
+			c.Branch("goc/shard-with-rollup-targets")
+		}
+	}
 	gocEngine(c, k, iv, func(shard tsdb.Shard) {
 		for band := 0; band < 3; band++ {
 			base := ms(1975+40*band+r.Intn(30), time.Month(1+r.Intn(12)), 1+r.Intn(28), r.Intn(24), r.Intn(60), r.Intn(60), r.Intn(1000))
@@ -333,5 +358,5 @@ func gocCase(c *core.Ctx, r *rand.Rand) {
 			}
 			opGoc(c, shard, k, ts, sched)
 		}
-	})
+	}, rollups...)
 }
